@@ -150,3 +150,32 @@ Fixpoint wf_history (s : state) (h : list op) : bool :=
   end.
 
 Definition wf_init (sysmax defmax : vec) : bool := vnonnegb sysmax && vnonnegb defmax.
+
+(* ---------- the quota objects the history delivered ---------- *)
+
+(* the attributes GetQuotaSummaries must report for every quota are those of the ElasticQuota
+   object delivered last (the two built-in quotas keep what the constructor gave them); this is
+   recomputed from the history alone, never from the manager's own bookkeeping *)
+Definition sset (sh : list qshape) (sp : qshape) : list qshape :=
+  match find sh (q_name sp) with
+  | Some _ => upd_sh sh (q_name sp) (fun _ => sp)
+  | None => sh ++ [sp]
+  end.
+
+Definition sstep (sh : list qshape) (o : op) : list qshape :=
+  match o with
+  | OpQuotaUpdate sp => sset sh sp
+  | OpQuotaDelete n => remove_sh sh n
+  | _ => sh
+  end.
+
+Definition spec_shapes (sh : list qshape) (h : list op) : list qshape := fold_left sstep h sh.
+
+Definition qshape_eqb (a b : qshape) : bool :=
+  (q_name a =? q_name b) && (q_parent a =? q_parent b) && Bool.eqb (q_isparent a) (q_isparent b)
+  && Bool.eqb (q_lend a) (q_lend b) && veqb (q_max a) (q_max b) && veqb (q_min a) (q_min b).
+
+(* [got] lists exactly the quotas of [want], with the same attributes *)
+Definition shapes_eqb (got want : list qshape) : bool :=
+  Nat.eqb (length got) (length want)
+  && forallb (fun q => match find want (q_name q) with Some q' => qshape_eqb q q' | None => false end) got.
